@@ -322,7 +322,8 @@ def c09_job(chk, rng, i):
     tb = rotate(i // 3, ["", "-Cem", "-C", "-Cfe", "-CFe"])
     if case["opts"].get("uses_reject") and ("f" in tb or "F" in tb):
         tb = ""
-    cfg = {"flavour": fl, "flexargs": lib.tables_args(tb, 8), "opts": {"array": i % 5 == 4}}
+    cfg = {"flavour": fl, "flexargs": lib.tables_args(tb, 8),
+           "opts": {"array": i % 5 == 4 or (mode in (1, 3) and i % 3 != 0)}}
     expect_build = std_refusals(tb)
     routes = set()
     for r in case["rules"]:
@@ -492,6 +493,14 @@ def c11_job(chk, rng, i):
             deep.append(("x", ("gpush", 0 if s == 1 else s - 1)))   # ... which is pushed again
         after = [deep] + after
     case["driver"] = {"init": [("open_buf", 0)], "after": after}
+    small_first = (i % 6 == 4)
+    if small_first:
+        # REJECT machinery (state buffer sized from the first buffer) + a tiny first buffer
+        # + larger buffers pushed / switched to later, holding longer tokens
+        case["rules"].append({"scs": None, "bol": False,
+                              "pat": ("plus", ("ccl", False, [("c", 120), ("c", 121)])),
+                              "trail": None, "act": [("if", 77, 100, 30, [("reject",)])]})
+        case["opts"]["uses_reject"] = True
     case["wrap"] = [("pop",)] * 60
     case["opts"]["yylineno"] = (i % 3 == 0)
     ctx = gen.ctx_of(case)
@@ -502,13 +511,21 @@ def c11_job(chk, rng, i):
         if rng.chance(50):
             j = rng.below(nstr)
             strs[j] = strs[j][:5] + b"\x00" + strs[j][5:]
-        inputs.append({"sources": srcs, "strings": strs,
-                       "sched": rng.choice([[0], [1], [2, 3], [7]])})
+        inp = {"sources": srcs, "strings": strs, "sched": rng.choice([[0], [1], [2, 3], [7]])}
+        if small_first:
+            inp["bufsize"] = rng.choice([4, 8, 16])
+            for j in range(1, nsrc):
+                k = rng.below(len(srcs[j]) + 1)
+                srcs[j] = srcs[j][:k] + bytes(rng.choice(b"xy") for _ in range(rng.rint(10, 40))) + srcs[j][k:]
+            srcs[0] = srcs[0].replace(b"x", b"a").replace(b"y", b"b")
+        inputs.append(inp)
     case["budget"] = {"events": 900}
     fl = rotate(i, FLAV3)
     cfg = {"flavour": fl, "flexargs": ()}
-    return {"case": case, "configs": [cfg], "inputs": inputs,
-            "features": ["nslot:%d" % nslot]}
+    feats = ["nslot:%d" % nslot]
+    if small_first:
+        feats.append("small_first_buffer_reject")
+    return {"case": case, "configs": [cfg], "inputs": inputs, "features": feats}
 
 
 # ---------------------------------------------------------------------------- C03
